@@ -7,6 +7,7 @@ package traefikoidc_test
 // prediction is what serving that request alone produces (the isolation theorem). Real goroutines, real time.
 
 import (
+	"strings"
 	"fmt"
 	"net/http"
 	"net/http/httptest"
@@ -80,6 +81,14 @@ func (w *world) runSchedule(reqs []schedReq, sched []int) ([]*httptest.ResponseR
 	}
 	// provider and downstream are scheduling points and attribute their effects to the running request
 	w.p.sched = func(point string) { s.yield(point) }
+	if w.refreshByRT != nil {
+		w.p.onRefresh = func(form url.Values) tokenAnswer {
+			if a, ok := w.refreshByRT[form.Get("refresh_token")]; ok {
+				return a
+			}
+			return tokenAnswer{kind: "invalid_grant", desc: "unknown refresh token"}
+		}
+	}
 	d.sched = func(point string) {
 		s.yield(point)
 	}
@@ -187,9 +196,32 @@ func familySched(t *testing.T) {
 		w.newBrowser() // 3
 		w.visit("/three", reqSpec{note: "initiate only"})
 		ir3 := w.lastInit[3]
+		// 4 and 5: logged in with an ID token inside the grace period and JWT-looking refresh tokens (same first characters):
+		// their next request performs a refresh grant
+		o4, o5 := w.randomTokOpts(rng, true), w.randomTokOpts(rng, true)
+		o4.blob, o4.jti, o4.expIn, o4.email = 0, false, 20*time.Second, "fourth@example.com"
+		o5.blob, o5.jti, o5.expIn, o5.email = 0, false, 20*time.Second, "fifth@example.com"
+		if len(w.domains) > 0 && !inList(w.domains, "example.com") {
+			o4.email, o5.email = "fourth@"+w.domains[0], "fifth@"+w.domains[0]
+		}
+		rt4, rt5 := "eyJhbGciOiJSUzI1NiJ9.refresh-four", "eyJhbGciOiJSUzI1NiJ9.refresh-five"
+		w.newBrowser() // 4
+		w.fullLogin("/four", o4, rt4, rng)
+		w.newBrowser() // 5
+		w.fullLogin("/five", o5, rt5, rng)
+		refreshAns := map[string]tokenAnswer{}
+		w.refreshByRT = refreshAns
 		w.switchBrowser(0)
 		if !w.loggedIn[1] || !w.loggedIn[2] || ir3 == nil {
 			continue // configuration rejected the logins (allow-lists): nothing to interleave
+		}
+		haveRefreshers := w.loggedIn[4] && w.loggedIn[5]
+		mkRefresh := func(b int, rt string, o tokOpts, path string) schedReq {
+			o.expIn = time.Hour
+			tok := w.mintWith(o, rng)
+			a := tokenAnswer{kind: "ok", idToken: tok.raw, refresh: rt}
+			refreshAns[rt] = a
+			return schedReq{b: b, rs: reqSpec{rawURI: path, refresh: &a}, kind: fmt.Sprintf("refresh%d", b)}
 		}
 		// the request kinds
 		kinds := map[string]func() schedReq{
@@ -209,10 +241,18 @@ func familySched(t *testing.T) {
 				w.answerByCode[c.code] = tokenAnswer{kind: "ok", idToken: tok.raw}
 				return schedReq{b: 3, rs: reqSpec{rawURI: "/cb?state=" + url.QueryEscape(ir3.state) + "&code=" + c.code, exchange: &tokenAnswer{kind: "ok", idToken: tok.raw}}, kind: "callback"}
 			},
-			"garbage": func() schedReq { return schedReq{b: 0, rs: reqSpec{rawURI: "/g"}, kind: "garbage"} },
+			"garbage":  func() schedReq { return schedReq{b: 0, rs: reqSpec{rawURI: "/g"}, kind: "garbage"} },
+			"refresh4": func() schedReq { return mkRefresh(4, rt4, o4, "/r4") },
+			"refresh5": func() schedReq { return mkRefresh(5, rt5, o5, "/r5") },
 		}
-		pairs := [][]string{{"anon", "auth1"}, {"anon", "auth2"}, {"anon", "anon"}, {"auth1", "auth2"}, {"anon", "logout"}, {"auth1", "logout"}, {"anon", "callback"}, {"auth1", "callback"}, {"anon", "auth1", "auth2"}}
+		pairs := [][]string{{"anon", "auth1"}, {"anon", "auth2"}, {"anon", "anon"}, {"auth1", "auth2"}, {"anon", "logout"}, {"auth1", "logout"}, {"anon", "callback"}, {"auth1", "callback"}, {"anon", "auth1", "auth2"},
+			{"refresh4", "refresh5"}, {"auth1", "refresh4"}, {"anon", "refresh5"}, {"refresh4", "logout"}, {"refresh5", "callback"}, {"refresh4", "refresh5", "auth2"}}
 		pair := pairs[round%len(pairs)]
+		if strings.HasPrefix(pair[0], "refresh") || strings.HasPrefix(pair[1], "refresh") {
+			if !haveRefreshers {
+				continue
+			}
+		}
 		// snapshot of the jars: every schedule starts from the same browser state
 		saved := []jar{}
 		snapID := []int{}
@@ -323,7 +363,7 @@ func familySched(t *testing.T) {
 						}
 					}
 					if obs["class"] == "forward" {
-						want := map[string]string{"auth1": fmt.Sprint(o1.email), "auth2": fmt.Sprint(o2.email)}[q.kind]
+						want := map[string]string{"auth1": fmt.Sprint(o1.email), "auth2": fmt.Sprint(o2.email), "refresh4": fmt.Sprint(o4.email), "refresh5": fmt.Sprint(o5.email)}[q.kind]
 						hd, _ := obs["hdrs"].([]string)
 						if want != "" && !inList(hd, "X-Forwarded-User="+want) {
 							T.oracle("C05", "a forwarded request carries another request's identity", M{"kind": q.kind, "hdrs": hd, "want": want}, replay)
